@@ -637,7 +637,7 @@ def explore(ctx, art):
             first_of.setdefault(ci, i)
         for i, (l, o) in enumerate(zip(lines, impl)):
             ci = owner[i]
-            if o.startswith("panic") or (o == "bad-op"):
+            if o.startswith("panic") or " ; panic " in o or (o == "bad-op"):
                 if base + ci not in bad:
                     bad[base + ci] = (i - first_of[ci], "violates crash: `%s` -> %s" % (l, o))
                 continue
@@ -702,6 +702,7 @@ def explore(ctx, art):
     guard_level(ctx, art)
     glue_level(ctx, art, "TestC04TcpServer", "tcpsrv")
     glue_level(ctx, art, "TestC04UdpDial", "udpdial")
+    glue_level(ctx, art, "TestC04Discover", "discover")
     if ctx.tier == "thorough":
         conn_level(ctx, art)
         with common.Lock():
@@ -790,7 +791,7 @@ def glue_level(ctx, art, test, tag):
                     {"input": ["go test -run %s (harness/c04/glue_test.go)" % test], "scenario": scen, "test": test, "seed": ctx.seed,
                      "observed": l, "expected": "every application is handed exactly what its own peer supplied, once, or the exchange fails"}))
     ctx.cov[tag + "_scenarios"] = len(out)
-    if tag == "udpdial" and all("skipped" in l for l in out):
+    if tag in ("udpdial", "discover") and all("skipped" in l for l in out):
         ctx.notes.append("udp.Dial scenarios skipped: no loopback socket in this environment")
 
 
